@@ -320,6 +320,24 @@ def dualPrinted (x : AppCtx) : Bool := !x.ampl && x.wantsol.testBit 2
 def rayPrimalOfOption (rays : Nat) : Bool := rays.testBit 0
 def rayDualOfOption (rays : Nat) : Bool := rays.testBit 1
 
+
+/-! ## Round 8: what rounding (`mip:round`) may do to the code and the message (hand model; proved equal to the
+definitions generated from `RoundSolution` / `ModifySolveCodeAndMessageAfterRounding` / `DoRound`, see `C10_gen_round_*`) -/
+
+/-- the note "N integer variable(s) [would be] rounded to integer" is appended: something was fractional and bit 4 is set -/
+def roundNoteShown (x : RoundCtx) : Bool := decide (x.nRounded ≠ 0) && x.round.testBit 2
+/-- the note says "would be rounded": bit 1 (assign) is not set -/
+def roundNoteWouldBe (x : RoundCtx) : Bool := roundNoteShown x && !x.round.testBit 0
+/-- the rounded values replace the solver's: bit 1 -/
+def roundValuesAssigned (x : RoundCtx) : Bool := x.round.testBit 0
+/-- rounding never changes the solve code — also not with bit 2 ("Modify solve_result" in the option text): the block
+    `if (round() & 2 && IsSolStatusRetrieved()) { }` is empty -/
+def roundChangesCode (_ : RoundCtx) : Bool := false
+
+/-- the rounding note is in the final message: `ReportSolution2AMPL` calls `RoundSolution` (candidate code, MIP, option set) and the note is shown -/
+def roundNoteInMessage (a : Answer) (x : RoundCtx) : Bool :=
+  (isProblemSolvedOrFeasible a.code && (a.roundOpt && a.isMIP)) && roundNoteShown x
+
 def b2s (b : Bool) : String := if b then "1" else "0"
 
 def Report.toStr (r : Report) : String :=
